@@ -275,6 +275,7 @@ type Callee struct {
 	Iface   bool         // method of an interface (dynamic dispatch)
 	Recv    ast.Expr     // receiver expression for method calls
 	RecvIface *types.Interface // static interface (or type-parameter constraint) of the receiver
+	RecvTP    *types.TypeParam // receiver is a value of this type parameter
 }
 
 func (c *Callee) String() string {
@@ -331,6 +332,7 @@ func resolveCallee(info *types.Info, call *ast.CallExpr) *Callee {
 			c.Recv = f.X
 			rt := sel.Recv()
 			if tp, ok := rt.(*types.TypeParam); ok {
+				c.RecvTP = tp
 				rt = tp.Constraint()
 			}
 			if it, ok := rt.Underlying().(*types.Interface); ok {
@@ -496,9 +498,87 @@ func (p *Prog) allCalls(includeClients bool) []CallSite {
 // named type of the library is a candidate when its pointer method set has a
 // method for every method name of the interface the callee belongs to (name
 // based so that generic receivers and generic interfaces are covered).
-func (p *Prog) implementations(c *Callee) []*Func {
+func (p *Prog) implementations(c *Callee) []*Func { return p.implementationsIn(nil, c) }
+
+// typeArgsFor: the type arguments the library instantiates the generic
+// receiver type of f with, at the position of receiver type parameter tp.
+func (p *Prog) typeArgsFor(f *Func, tp *types.TypeParam) []types.Type {
+	if f == nil || tp == nil {
+		return nil
+	}
+	root := f.Root()
+	if root.Obj == nil {
+		return nil
+	}
+	sig := root.Obj.Type().(*types.Signature)
+	if sig.Recv() == nil || sig.RecvTypeParams() == nil {
+		return nil
+	}
+	idx := -1
+	for i := 0; i < sig.RecvTypeParams().Len(); i++ {
+		if sig.RecvTypeParams().At(i) == tp {
+			idx = i
+		}
+	}
+	g := namedOf(sig.Recv().Type())
+	if idx < 0 || g == nil {
+		return nil
+	}
+	g = g.Origin()
+	seen := map[string]bool{}
+	var out []types.Type
+	for _, pkg := range p.Pkgs {
+		for _, tv := range pkg.TypesInfo.Types {
+			n := namedOf(tv.Type)
+			if n == nil || n.Origin() != g || n.TypeArgs() == nil || n.TypeArgs().Len() <= idx {
+				continue
+			}
+			a := n.TypeArgs().At(idx)
+			if _, isTP := a.(*types.TypeParam); isTP {
+				continue
+			}
+			k := types.TypeString(a, nil)
+			if !seen[k] {
+				seen[k] = true
+				out = append(out, a)
+			}
+		}
+	}
+	return out
+}
+
+func (p *Prog) implementationsIn(ctx *Func, c *Callee) []*Func {
 	if c == nil || c.Fn == nil || !c.Iface {
 		return nil
+	}
+	if c.RecvTP != nil {
+		if args := p.typeArgsFor(ctx, c.RecvTP); len(args) > 0 {
+			var out []*Func
+			seen := map[string]bool{}
+			for _, a := range args {
+				if it, ok := a.Underlying().(*types.Interface); ok {
+					c2 := *c
+					c2.RecvTP = nil
+					c2.RecvIface = it
+					for _, f := range p.implementationsIn(nil, &c2) {
+						if !seen[f.Key] {
+							seen[f.Key] = true
+							out = append(out, f)
+						}
+					}
+					continue
+				}
+				obj, _, _ := types.LookupFieldOrMethod(a, true, c.Fn.Pkg(), c.Fn.Name())
+				if fn, ok := obj.(*types.Func); ok {
+					if f := p.byObj[funcKey(fn)]; f != nil && !seen[f.Key] {
+						seen[f.Key] = true
+						out = append(out, f)
+					}
+				}
+			}
+			sort.Slice(out, func(i, j int) bool { return out[i].Key < out[j].Key })
+			return out
+		}
 	}
 	sig := c.Fn.Type().(*types.Signature)
 	iface, _ := sig.Recv().Type().Underlying().(*types.Interface)
